@@ -375,3 +375,32 @@ func C12_Pieces3L3() {
 }
 func C12_Pieces4L2()  { c12Pieces(4, 2, c12PiecesQuick) }
 func C12_Pieces3L3q() { c12Pieces(3, 3, c12PiecesQuick) }
+
+// C12_Seq: Match is a function of its arguments: two calls in one process,
+// with pattern lists that resemble each other (the same text split at a blank
+// into one or two patterns, the same patterns in another mode), each against
+// the reference — state kept between calls must not leak into results.
+func C12_Seq() {
+	lists := [][]string{{"a b"}, {"a", "b"}, {"a*", "b"}, {"a* b"}, {"[ab]", "c*"}, {"[ab] c*"}, {"a"}, {"b", "a"}}
+	subj := nd.Str(3)
+	modes := []pattern.Mode{pattern.Prefix | pattern.Largest, pattern.Suffix | pattern.Smallest}
+	for call := 0; call < 2; call++ {
+		l := lists[nd.Choice(len(lists))]
+		mi := nd.Choice(2)
+		got, err := pattern.Match(l, modes[mi], subj)
+		var want []rune
+		found := false
+		for _, p := range l {
+			toks, _ := parsePat([]rune(p))
+			w, ok := refRemove(toks, []rune(subj), mi == 0, mi == 1)
+			if ok && (!found || (mi == 0 && len(w) > len(want)) || (mi == 1 && len(w) < len(want))) {
+				want, found = w, true
+			}
+		}
+		if !found {
+			nd.Assert(err == pattern.NoMatch, "NoMatch exactly when no pattern of the list matches (second call included)")
+			continue
+		}
+		nd.Assert(err == nil && got == string(want), "each call returns what its own arguments determine")
+	}
+}
